@@ -5,6 +5,8 @@
 (* the action constraint prints  <shortest path to s> + <input of the transition>  for *every*     *)
 (* transition s -> t: one implementation test per transition of the model.                         *)
 (* Only the inputs are replayed; what the real code answers is judged by trace validation.         *)
+(* find_key / bond data base inputs are not part of the alphabet (they change nothing the managers  *)
+(* read before the next find_key): checks/sm.py appends them as probes to every behaviour.         *)
 EXTENDS SecurityManager, TLC, Json
 
 CONSTANTS GConfigs,                         \* set of cfg records (compiled configuration + OOB data present + answer timing)
